@@ -108,6 +108,9 @@ use super::*;
 
 impl TranslationsInfos {
 //@@ get_icu_keys_inner
+
+// E3: the first two statements of get_icu_keys, lifted (the third hands the set to datakey::get_keys)
+//@@ used_options
 }
 
 } // verus!
